@@ -182,11 +182,15 @@ def run(ctx):
         for v in gen_value.zoo():
             cases.append(valcorr.ValCase(s, v, "zoo"))
     cases += valcases.list_form_value_cases(ctx)
+    from .. import hostile
+    cases += hostile.defaulting_dict_cases()
     for c in cases:
         valcorr.run_real(c)
         valcorr.prepare(c)
     ctx.count("skipped_unencodable", sum(1 for c in cases if c.skip))
     oracle(ctx, cases)
+    from .. import limits
+    limits.huge_int_probe(ctx, "C08")
     dis = valcorr.compare(cases, ctx, view="errors")
     for c, detail in dis[:10]:
         ctx.breakage("correspondence", "validator view (error multiset) differs between model and code",
